@@ -3,7 +3,7 @@
 driver.py -- runs the checks of one property: extraction -> back end A (CBMC dfcc) and/or back end B (SMT)
 -> obligation table -> evidence/<id>.json -> verdict (exit 0 / 1 + VIOLATION line / 2 no verdict).
 """
-import sys, os, json, re, subprocess, time, shutil, hashlib, glob, concurrent.futures as cf
+import sys, os, json, re, subprocess, time, shutil, hashlib, glob, threading, concurrent.futures as cf
 
 VERIF = os.path.dirname(os.path.dirname(os.path.abspath(__file__)))
 sys.path.insert(0, os.path.join(VERIF, 'tools'))
@@ -12,6 +12,19 @@ from front import ExtractError
 
 REPO = front.REPO
 NCPU = int(os.environ.get('VERIF_JOBS', '16'))
+
+
+def _mem_budget():
+    try:
+        for l in open('/proc/meminfo'):
+            if l.startswith('MemAvailable:'):
+                return max(8.0, int(l.split()[1]) / 1048576.0 * 0.75)
+    except Exception:
+        pass
+    return 32.0
+
+
+MEM_BUDGET_GB = float(os.environ.get('VERIF_MEM_GB', '0')) or _mem_budget()
 
 
 def log(*a):
@@ -25,6 +38,8 @@ def sh(cmd, timeout, cwd=None, mem_kb=12 * 1024 * 1024):
     try:
         r = subprocess.run(['bash', '-c', pre + 'exec "$@"', 'sh'] + cmd, cwd=cwd, stdout=subprocess.PIPE, stderr=subprocess.PIPE,
                            timeout=timeout, text=True, errors='replace')
+        if r.returncode == -9:
+            return -99, r.stdout, 'KILLED (signal 9 before the time limit: out of memory?)', time.time() - t0
         return r.returncode, r.stdout, r.stderr, time.time() - t0
     except subprocess.TimeoutExpired as ex:
         return -9, (ex.stdout or b'').decode('utf8', 'replace') if isinstance(ex.stdout, bytes) else (ex.stdout or ''), 'TIMEOUT', time.time() - t0
@@ -160,6 +175,9 @@ class SpecRun:
                 pass
         if rc == -9:
             res['status'] = 'timeout'; res['detail'] = 'cbmc exceeded %ds' % timeout
+            return res
+        if rc == -99:
+            res['status'] = 'tool-error'; res['detail'] = 'cbmc was killed by signal 9 after %.0fs (out of memory?)' % dt
             return res
         try:
             data = json.loads(so)
@@ -312,8 +330,25 @@ def run_check(pid, tier, seed):
                     o['define'] = ','.join([d for d in opts.get('define', '').split(',') if d] + defs)
                 jobs.append((sr, name, o, label))
     results = []
+    # admission by memory: a harness declares mem_gb (default 2); the sum of running harnesses stays below the budget
+    budget = [MEM_BUDGET_GB]
+    cond = threading.Condition()
+
+    def admitted(sr, name, o):
+        need = min(float(o.get('mem_gb', '2')), MEM_BUDGET_GB)
+        with cond:
+            while budget[0] < need:
+                cond.wait()
+            budget[0] -= need
+        try:
+            return sr.run_harness(name, o)
+        finally:
+            with cond:
+                budget[0] += need
+                cond.notify_all()
+    jobs.sort(key=lambda j: -float(j[2].get('mem_gb', '2')))      # big ones first
     with cf.ThreadPoolExecutor(max_workers=NCPU) as ex:
-        futs = {ex.submit(sr.run_harness, name, o): (sr, name, o, label) for sr, name, o, label in jobs}
+        futs = {ex.submit(admitted, sr, name, o): (sr, name, o, label) for sr, name, o, label in jobs}
         for fu in cf.as_completed(futs):
             sr, name, o, label = futs[fu]
             try:
